@@ -36,7 +36,7 @@ def run_one(patch):
 
 
 if __name__ == "__main__":
-    with ThreadPoolExecutor(max_workers=4) as ex:
+    with ThreadPoolExecutor(max_workers=int(os.environ.get("RBV_JOBS", "4"))) as ex:
         for patch, status, bad in ex.map(run_one, sys.argv[1:]):
             print(status, patch)
             for b in bad:
